@@ -12,7 +12,7 @@ from sim import world as W
 
 PROPERTY = "C17"
 LEVEL = "fault_enumeration"
-BUDGET = {"quick": 150, "thorough": 1500}
+BUDGET = {"quick": 170, "thorough": 3000}
 ASSUMPTIONS = [
     "only well-nested enter/exit sequences are generated (with-blocks and decorators)",
     "exceptions are injected at funsor-internal Python function entries and between body statements, "
@@ -107,9 +107,9 @@ def plan(seed, tier):
                 forests.append((shape, kinds))
     r.shuffle(forests)
     chunk = 6 if tier == "quick" else 12
-    cap = 40 if tier == "quick" else 400
-    sample = 15 if tier == "quick" else 100
-    rpt = 160 if tier == "quick" else 3000
+    cap = 40 if tier == "quick" else 100
+    sample = 15 if tier == "quick" else 60
+    rpt = 160 if tier == "quick" else 220
     for ci in range(0, len(forests), chunk):
         rr = W.rng(seed, "c17", "label", ci)
         trees = []
